@@ -491,7 +491,7 @@ int main()
 {
     std::string line;
     while (std::getline(std::cin, line)) {
-        std::string r = verif::run_forked([&]() { return run_case(line); }, 20);
+        std::string r = verif::run_forked([&]() { return run_case(line); }, 45);
         std::cout << r << "\n";
     }
     return 0;
